@@ -86,6 +86,9 @@ class Prog:
         self.cur_loop = 0
         self.expect = None      # calibration: list of histories with expected outputs
         self.tags = set()       # coverage tags "op/pers"
+        self.pairs = []         # [push sink, pull sink]: must agree tick by tick (C22)
+        self.mirror = []        # groups of source numbers that receive identical input
+        self.gaps = False       # histories: data in the first tick, empty ticks later
         self.note = ""
 
     # -- low level
@@ -453,7 +456,7 @@ class Prog:
 
     def desc(self):
         return {"nodes": [n.desc() for n in self.nodes],
-                "loops": self.loops, "nsrc": len(self.src_types), "nsink": len(self.sinks),
+                "loops": self.loops, "nsrc": len(self.src_types), "nsink": len(self.sinks), "pairs": self.pairs,
                 "ord": [o for (_, o) in self.sinks]}
 
     # ------------------------------------------------------------------------------------
@@ -715,17 +718,52 @@ def corpus():
         p.sink(p.simple(p.simple(a, "inspect"), "identity"))
     add("union_tee", "C21", b)
 
-    # --- every accumulating / stateful unary operator directly behind a tee (push side) and,
-    #     in the same program, directly in front of a union (pull side)
-    def side(name, fs):
+    # --- pull vs push (C21 against the model AND C22 side against side): the same operator once
+    #     directly behind a tee (push side, with a real downstream) and once fed directly by its
+    #     own source and followed by a binary union (pull side); all sources of one program receive
+    #     IDENTICAL input (p.mirror), so the two sinks of a pair must agree tick by tick (p.pairs)
+    def side(name, fs, ty="i"):
         def b(p):
-            s = p.src()
-            p.sink(s)                                   # second consumer -> tee -> push side
-            z = p.src()
+            s = p.src(ty)
+            p.sink(s)                                   # extra consumer -> tee -> push side
+            grp = [1]
             for f in fs:
-                p.sink(f(p, s))
-                p.sink(p.union(f(p, z), p.map(z, "inc")))     # in front of a union -> pull side
+                p.sink(f(p, s))                         # push placed
+                kpush = len(p.sinks)
+                z = p.src(ty)                           # sole consumer is f -> pull placed
+                grp.append(len(p.src_types))
+                r = f(p, z)
+                p.sink(p.union(r, p.source_iter([], p.ty(r))))
+                p.pairs.append([kpush, len(p.sinks)])
+            p.mirror.append(grp)
+            p.gaps = True
         add("sides_" + name, "C21", b)
+
+    def side2(name, mk, combos, tys):
+        """binary operators: inputs behind tees vs. fed directly by their own sources"""
+        def b(p):
+            a, c = p.src(tys[0]), p.src(tys[1])
+            p.sink(a)
+            p.sink(c)
+            ga, gc = [1], [2]
+            for pers in combos:
+                p.sink(mk(p, a, c, pers))
+                kpush = len(p.sinks)
+                a2, c2 = p.src(tys[0]), p.src(tys[1])
+                ga.append(len(p.src_types) - 1)
+                gc.append(len(p.src_types))
+                r = mk(p, a2, c2, pers)
+                p.sink(p.union(r, p.source_iter([], p.ty(r))))
+                p.pairs.append([kpush, len(p.sinks)])
+            p.mirror.extend([ga, gc])
+            p.gaps = True
+        add("sides_" + name, "C21", b)
+    side2("join", lambda p, a, c, pers: p.join(a, c, pers), [("tick", "tick"), ("static", "tick"), ("static", "static")], ("p", "p"))
+    side2("join_multiset", lambda p, a, c, pers: p.join(a, c, pers, op="join_multiset"), [("tick", "static"), ("static", "static")], ("p", "p"))
+    side2("anti_join", lambda p, a, c, pers: p.anti_join(a, c, pers), [("tick", "tick"), ("static", "tick"), ("tick", "static"), ("static", "static")], ("p", "i"))
+    side2("difference", lambda p, a, c, pers: p.difference(a, c, pers), [("tick", "tick"), ("static", "static")], ("i", "i"))
+    side2("cross_join", lambda p, a, c, pers: p.cross_join(a, c, pers), [("tick", "tick"), ("static", "tick")], ("i", "i"))
+    side2("zip", lambda p, a, c, pers: p.zip(a, c, pers), [("tick", "tick"), ("static", "static")], ("i", "i"))
     TS = ("tick", "static")
     side("fold", [lambda p, s, pers=pers: p.fold(s, "sum", pers) for pers in TS])
     side("fold_no_replay", [lambda p, s, pers=pers: p.fold(s, "sum", pers, op="fold_no_replay") for pers in TS])
@@ -739,6 +777,7 @@ def corpus():
     side("lattice_fold", [lambda p, s, pers=pers: p.lattice(s, pers, "lattice_fold") for pers in TS])
     side("lattice_reduce", [lambda p, s, pers=pers: p.lattice(s, pers, "lattice_reduce") for pers in TS])
     side("persist_sort", [lambda p, s: p.persist(s), lambda p, s: p.sort(s), lambda p, s: p.sort_by_key(s, "id")])
+    side("multiset_delta", [lambda p, s: p.multiset_delta(s), lambda p, s: p.multiset_delta(p.persist(s))])
     side("flat_filter", [lambda p, s: p.filter_map(p.flat_map(p.filter(s, "gt1"), "dup"), "half_even")])
 
     # --- C24: ticks, defer_tick, defer_tick_lazy, run_available
@@ -1525,12 +1564,19 @@ def rand_item(rng, ty):
 
 def history(rng, p, nsteps, avail_rate):
     H = []
-    for _ in range(nsteps):
+    if p.gaps:
+        nsteps = max(nsteps, 5)
+    for i in range(nsteps):
         inputs = []
         for ty in p.src_types:
             r = rng.random()
             n = 0 if r < 0.25 else rng.randrange(1, 5)
+            if p.gaps:      # data in the first tick, a guaranteed gap, data again, then random
+                n = rng.randrange(2, 5) if i in (0, 3) else 0 if i == 2 else (0 if r < 0.4 else rng.randrange(1, 4))
             inputs.append([rand_item(rng, ty) for _ in range(n)])
+        for grp in p.mirror:
+            for k in grp[1:]:
+                inputs[k - 1] = list(inputs[grp[0] - 1])
         mode = "avail" if (p.avail_term and rng.random() < avail_rate) else "tick"
         H.append({"mode": mode, "inputs": inputs})
     return H
